@@ -53,6 +53,43 @@ func main() {
 		for _, s := range scenarios {
 			fmt.Println(s.Prop, s.Name, s.Quick, s.Thorough)
 		}
+	case "diverge":
+		// mc diverge <scenario> <comma separated prefix>: compare the parent execution (prefix
+		// without its last choice) with the child, step by step
+		sc := findScenario(os.Args[2])
+		var pre []int
+		for _, f := range strings.Split(os.Args[3], ",") {
+			n, _ := strconv.Atoi(strings.TrimSpace(f))
+			pre = append(pre, n)
+		}
+		warm := 0
+		if len(os.Args) > 4 {
+			warm, _ = strconv.Atoi(os.Args[4])
+		}
+		var wp []int
+		if w := os.Getenv("WARM"); w != "" {
+			for _, f := range strings.Split(w, ",") {
+				n, _ := strconv.Atoi(strings.TrimSpace(f))
+				wp = append(wp, n)
+			}
+		}
+		for i := 0; i < warm; i++ {
+			r := runOne(sc, wp, false)
+			fmt.Println("warm points", len(r.Points))
+		}
+		a := runOne(sc, pre[:len(pre)-1], true)
+		b := runOne(sc, pre, true)
+		fmt.Println("parent points", len(a.Points), "child points", len(b.Points), "errs", a.EngineEr, "|", b.EngineEr)
+		for i := 0; i < len(a.Res.Log) && i < len(b.Res.Log); i++ {
+			if a.Res.Log[i] != b.Res.Log[i] {
+				for j := i - 6; j < i+4; j++ {
+					if j >= 0 && j < len(a.Res.Log) && j < len(b.Res.Log) {
+						fmt.Printf("%4d  A %s\n      B %s\n", j, a.Res.Log[j], b.Res.Log[j])
+					}
+				}
+				break
+			}
+		}
 	case "check":
 		os.Exit(checkMain(os.Args[2:]))
 	case "replay":
